@@ -200,7 +200,9 @@ func signCGGMPOn[P curves.Point[P, B, S], B algebra.PrimeFieldElement[B], S alge
 }
 
 func cggmpLine[P curves.Point[P, B, S], B algebra.PrimeFieldElement[B], S algebra.PrimeFieldElement[S]](d *ecDesc[P, B, S], np namedPolicy, km *keyMat[P, S], q quorumCase, msgClass string) {
+	d = d.withHash("cggmp" + np.Name + idsName(q.ids) + msgClass)
 	ev := newSignEv("cggmp21", "ecdsa", d.g.name, np, km.src+"+aux-pool", q, "runner", msgClass)
+	ev["hash"] = d.hashName()
 	defer func() { w.Emit(ev) }()
 	if km.err != "" {
 		ev["keyErr"] = km.err
